@@ -3,7 +3,7 @@
    proposal with one transaction it does not hold, and asks the application for it.  Everything is computed with the
    executable model (vm_compute). *)
 From Coq Require Import ZArith List.
-From DbftV Require Import Gates NoPanic P10 P12 Replay D1.
+From DbftV Require Import Gates NoPanic P10 P12 Replay D1 S1.
 Open Scope Z_scope.
 
 Definition cfg0 := mkCfg 1 (-1) false.
@@ -71,4 +71,22 @@ Example a_block_is_handed_over_in_some_history :
 Proof.
   destruct (refutes_sound d1_cfg d1 d1_refutes) as (st & ev & sc & st' & tr & s & HR & Hs & Hin & _).
   destruct (handed_over_in tr s Hin) as (h & e & Hi). exists d1_cfg, st, ev, sc, st', tr, s, h, e. auto.
+Qed.
+
+(* ... and one - a complete anti-MEV round recorded from the real library, Witness/S1.v - in which the node asks for a block
+   signature (the hypothesis of the C03 whole-model theorem), hands over the pre-block and the block *)
+Definition is_sign (c : call) : bool := match c with CSign _ => true | _ => false end.
+Definition is_preblock (c : call) : bool := match c with CProcessPreBlock _ _ => true | _ => false end.
+Definition is_block (c : call) : bool := match c with CProcessBlock _ _ => true | _ => false end.
+Example a_signature_is_requested_in_some_history :
+  exists cfg st ev sc st' tr s h, Reach cfg st /\ step cfg st ev sc = Ok (st', tr) /\ In (s, CSign h) tr.
+Proof.
+  destruct (has_call_sound s1_cfg s1 is_sign ltac:(vm_compute; reflexivity)) as (st & ev & sc & st' & tr & s & c & HR & Hs & Hin & Hc).
+  destruct c; try discriminate Hc. exists s1_cfg, st, ev, sc, st', tr, s, bh. auto.
+Qed.
+Example a_preblock_is_handed_over_in_some_history :
+  exists cfg st ev sc st' tr s h e, Reach cfg st /\ step cfg st ev sc = Ok (st', tr) /\ In (s, CProcessPreBlock h e) tr.
+Proof.
+  destruct (has_call_sound s1_cfg s1 is_preblock ltac:(vm_compute; reflexivity)) as (st & ev & sc & st' & tr & s & c & HR & Hs & Hin & Hc).
+  destruct c; try discriminate Hc. eexists s1_cfg, st, ev, sc, st', tr, s, _, _. eauto.
 Qed.
